@@ -176,6 +176,39 @@ CHECKS["C11"] = ("model_checking",
     "is listed in known_findings.json and reported as KNOWN-FINDING; any other content failure is a VIOLATION. Events "
     "whose encoding exceeds 65528 bytes are a documented limit (not delivered).", "4 C11")
 
+CHECKS["C15"] = ("model_checking",
+    "RFC 6265 section 5.2 client-side parser and the request-side cookie-string rules transcribed into TLA+ "
+    "(Cookies.tla, Framing!CookieFields); round trip against an independent formatter model-checked by TLC; generated "
+    "Cookie headers and built cookies run through the real code and judged by TLC",
+    "Pure-function property: the specification acts as a transcribed oracle (weakest form of the technique). MC_Cookies "
+    "checks Parse(Format(c)) = c on 1296 cookies. 3k/60k generated Cookie headers go through read_http_request and the "
+    "cookie map (or the 400) is compared with Framing!CookieFields; 3k/60k cookies built through the response API are "
+    "rendered by with_set_cookie and read back by Cookies!Parse (name, value, Domain, Path, Max-Age as digit tuple up "
+    "to 2^40, Secure, HttpOnly, SameSite; exactly one set-cookie field per cookie).",
+    "Trusted: TLC and the transcription of RFC 6265. Free zone: blanks around '=' inside a pair; Expires text (checked "
+    "under C16); Max-Age = 0 means unset by the documented API.", "4 C15")
+CHECKS["C16"] = ("model_checking",
+    "TLA+ Calendar.tla: successor-day machine model-checked against the closed forms DaysFromCivil/CivilFromDays for "
+    "every day; exhaustive sweep of the real DateTime::new over every day 1970..9999 and additions over every month "
+    "1970..2405, judged by TLC",
+    "TLC walks the successor-day rule one state per day (303k states to year 2800 quick, 2.93M states to 9999 "
+    "thorough) checking both closed forms agree. The real code is swept exhaustively over all 2 932 897 days x 7 "
+    "seconds-of-day (losslessly run-length encoded into ~96k Month events, tiling checked), every second of 14 days, "
+    "3000 instants through the three rendering users, and ~190k additions; every event is judged by Calendar.tla.",
+    "Trusted: TLC; the RLE is lossless (a run is extended only when the code's own outputs continue it). Log file "
+    "names (SystemTime::now) are not covered; log lines up to 2553.", "4 C16")
+CHECKS["C17"] = ("model_checking",
+    "RFC 8259 recogniser/decoder over code points in TLA+ (LogJson.tla), round-trip model-checked against an "
+    "independent encoder; every Unicode scalar and generated log lines rendered by the real code and read back by TLC",
+    "Pure-function property: transcribed oracle. MC_LogJson checks decoder(encoder(s)) = s and strictness on all "
+    "strings up to length 3 over 14 code-point classes. Every Unicode scalar value as a one-character string tag "
+    "(thorough: all 1 112 064; quick: boundaries + every 16th) and 600/20000 generated lines of 0..20 tags (all escape "
+    "classes, all integer widths incl. 128-bit as decimal text, non-finite floats, booleans, null) through write_jsonl "
+    "and through log() -> installed logger are parsed by LogJson!Line: exactly one object + LF, fixed members, one "
+    "member per tag whose decoded value equals the tag's value.",
+    "Trusted: TLC and the transcription of RFC 8259. Non-finite floats must be representable JSON (string or null).",
+    "4 C17")
+
 NOT_APPLICABLE = {}
 
 
